@@ -29,16 +29,21 @@ PROP = {
              "returns a fresh Config per evaluation (credential unique per evaluation, single-use ConnFactory as in "
              "app/cmd/client.go); each factory call creates a new simnet endpoint (new source address) wrapped in a census "
              "PacketConn that counts Close calls. Kill switches: router blackhole of the socket's address (QUIC idle timeout "
-             "at ~30 s virtual, with or without waiting for it), injected socket read/write error, server restart, server "
-             "down for the next 1..3 attempts; failing reconnects: configFunc error, factory error, rejected credential, "
-             "server down. "
+             "at ~30 s virtual, with or without waiting for it), injected socket read/write error, server restart on the same "
+             "address with a FRESH stateless-reset key (silent: idle timeout), server restart on the same address with the "
+             "SAME StatelessResetKey (the next packet of the old connection is answered with a valid QUIC stateless "
+             "reset), server-side kick (TrafficLogger refuses the connection's traffic -> server CloseWithError 0x107, the "
+             "client receives CONNECTION_CLOSE with an application error), server down for the next 1..3 attempts; "
+             "failing reconnects: configFunc error, factory error, rejected credential, TLS verification failure (local "
+             "CRYPTO_ERROR transport error during the handshake), server down (handshake timeout). How each loss "
+             "surfaced is counted (ev_loss_by_stateless_reset / _remote_application_close / _idle_timeout). "
              "c16-enum-0..2 (FAULT ENUMERATION, three shards of one enumeration): base call scripts over {TCP call, UDP call, TCP call whose stream is held "
              "open} of length 1..6 (13 fixed scripts + 3 PRNG, thorough 40 PRNG); for EVERY base script, EVERY kill index "
-             "p in 0..L (before call p; p=L: after the last call, before Close), EVERY one of 13 fault kinds (blackhole, "
-             "blackhole+wait, socket error, server restart, server down x1/x2, socket error followed by 1/2 config errors, "
+             "p in 0..L (before call p; p=L: after the last call, before Close), EVERY one of 17 fault kinds (blackhole, "
+             "blackhole+wait, socket error, server restart fresh key, server restart same key (stateless reset), same-key restart + config error, server kick, server down x1/x2, socket error + TLS failure, socket error followed by 1/2 config errors, "
              "1 factory error, 1/2 rejected credentials, blackhole + config error, server down + config error) and both "
              "start modes (lazy, eager) one case is run in its own synctest bubble, followed by Close and three calls "
-             "after Close; space = sum over base scripts of (L+1)*13*2 (counters enum_space_cases, "
+             "after Close; space = sum over base scripts of (L+1)*17*2 (counters enum_space_cases, "
              "summed over the shards; enum_kill_positions_x_start_modes_all_shards, enum_fault_kinds, enum_base_scripts_all_shards). "
              "c16-random: PRNG scripts of 6..20 steps (calls, holds, release, virtual sleeps up to 40 s, kills of all "
              "kinds with 0..3 failing reconnects, a burst of 2..8 concurrent one-shot calls on a freshly blackholed "
@@ -62,7 +67,7 @@ PROP = {
              "sequential probe (failing call -> next call: exactly one evaluation, one connect, success); calls started "
              "after Close returned fail, no evaluation after Close. Non-trivial case = contains a kill and calls and "
              "reaches Close; distinct = distinct script."),
-    "exhaustive_note": ("exhaustive within the stated bound: ONE fault per history, every kill index 0..L x 13 fault kinds x "
+    "exhaustive_note": ("exhaustive within the stated bound: ONE fault per history, every kill index 0..L x 17 fault kinds x "
                         "lazy/eager for each listed base script of <= 6 calls (size in counters "
                         "c16-enum-*.enum_space_cases; quick: 16 base scripts). Histories with several faults, longer "
                         "scripts, Close at other positions and goroutine schedules are sampled (c16-random, "
